@@ -196,6 +196,11 @@ def render_normal(rng, text, devices):
             # line continuation; sometimes the next char is U+00A0 (rustc keeps it)
             devices.add("continuation")
             out += "\\\n" + rng.choice(["", " ", "\t ", "  \n  ", "\r\n "])
+            if rng.random() < 0.35:
+                # a char that looks like white space but is NOT skipped by rustc after a continuation: it
+                # stays part of the literal (the reference gets it from rustc itself)
+                devices.add("continuation_then_unskipped_ws")
+                out += rng.choice(["\x0c", "\x0b", "\u00a0", "\u2003", "\u0085", "\u3000", "\x0c ", "\x1f"])
             if c == "\u00a0":
                 devices.add("continuation_then_nbsp")
                 out += c
